@@ -46,6 +46,25 @@ def roundtrip(source, stats=None, what="profile"):
         raise Violation("text:regenerated_text_rejected", f"{what}: regenerated text does not parse: {str(p2.exc)[:300]!r}; text={text[:400]!r}")
     if p2.tree != p.tree:
         raise Violation("text:tree_changed", f"{what}: tree of the regenerated text differs from the original tree")
+    if len(source) % 4 == 0 and source.isascii() and "\r" not in source:
+        # the path-based constructor reads the same text from a file (plain ASCII without CR: no decoding or newline
+        # translation is involved), so it must give the same profile
+        import os
+        import tempfile
+
+        fd, path = tempfile.mkstemp(prefix="c10_", suffix=".profile", dir="/dev/shm" if os.path.isdir("/dev/shm") else None)
+        try:
+            with os.fdopen(fd, "wb") as f:
+                f.write(source.encode("ascii"))
+            pp = lib(c2profile.C2Profile.from_path, path, allow=(Exception,), what="from_path")
+        finally:
+            os.unlink(path)
+        if isinstance(pp, Raised):
+            raise Violation("parse:from_path_rejected", f"{what}: from_path rejected a file that from_text accepts: {str(pp.exc)[:300]!r}; source={source[:300]!r}")
+        if pp.tree != p.tree:
+            a, b = PL.tokenize(lib(pp.as_text, what="as_text")), src_tokens
+            i = next((k for k, (x, y) in enumerate(zip(a, b)) if x != y), min(len(a), len(b)))
+            raise Violation("parse:from_path_differs", f"{what}: from_path(file) and from_text(file content) give different profiles: token {i}: file {a[max(0, i - 2):i + 1]} vs text {b[max(0, i - 2):i + 1]}")
     return p
 
 
